@@ -422,9 +422,36 @@ def specC05hb (s : St) : List String :=
     | _ => h
   (s.evs.foldl step {}).out
 
+/-- sequences whose `write` call has returned: every `write <seq>` of a thread that is followed by a `wend` of the same
+thread -/
+def completedWrites (evs : Array Ev) : List Nat := Id.run do
+  let mut open_ : List (String × List Nat) := []
+  let mut done : List Nat := []
+  for e in evs do
+    if e.kind == "wbegin" then open_ := (e.tid, []) :: open_.filter (·.1 != e.tid)
+    else if e.kind == "write" then
+      open_ := open_.map (fun (t, l) => if t == e.tid then (t, l ++ [natAt e.args 0]) else (t, l))
+    else if e.kind == "wend" then
+      match open_.find? (·.1 == e.tid) with
+      | some (_, l) => done := done ++ l; open_ := open_.filter (·.1 != e.tid)
+      | none => pure ()
+  return done
+
+/-- C06 on the implementation's events: the run must end with every managed thread finished (`ok`), `drain`, join and
+every `write` call must have returned. A run that does not end (`deadlock` / `budget` / `hang` / `panic` / `crash`) is a
+violation; for the multi producer it is classified `kind=multi-stranded` (known finding F11) when some sequence was
+written and its `write` call returned although the producer cursor never reached it (out-of-order publication
+strands it, and every later claim then waits for ever on the gate / `drain` on the cursor). -/
 def specC06 (s : St) (status : String) : List String :=
   let has (k : String) := s.evs.any (fun e => e.kind == k)
-  (if status != "ok" then [s!"SPECFAIL C06 run ended with status {status}"] else []) ++
+  let pc := (lookup s.locs "pc").getD "?"
+  let last := ((cursorUpdates s.evs pc).getLast?.map (·.1)).getD 0
+  let stranded := (completedWrites s.evs).filter (fun q => q > last)
+  let prod := if s.cfg.multi then "multi" else "single"
+  let kind := if s.cfg.multi && !stranded.isEmpty then "multi-stranded" else "other"
+  (if status != "ok" then
+     [s!"SPECFAIL C06 run ended with status {status} kind={kind} producer={prod} cursor={last} stranded={stranded.take 4}"]
+   else []) ++
   ((s.evs.toList.filter (fun e => e.kind == "panic")).map (fun e => s!"SPECFAIL C06 thread {e.tid} panicked instead of returning")) ++
   (if status == "ok" && s.cfg.drain && !(has "drained") then ["SPECFAIL C06 drain did not return"] else []) ++
   (if status == "ok" && !(has "joined") then ["SPECFAIL C06 join did not return"] else []) ++
